@@ -1,5 +1,8 @@
 import Ufw.Props.C17
 import Ufw.Tie.Misc
+import Ufw.Tie.EndpFns.Common
+import Ufw.Tie.EndpFns.SinkAdapt
+import Ufw.Tie.EndpFns.SourceAdapt
 #print axioms Ufw.Props.C17.get_chunk_exact
 #print axioms Ufw.Props.C17.get_chunk_refuses
 #print axioms Ufw.Props.C17.get_atmost_le
@@ -17,3 +20,25 @@ import Ufw.Tie.Misc
 #print axioms Ufw.Tie.Misc.const_ssize_max
 #print axioms Ufw.Tie.Misc.const_crc_initial
 #print axioms Ufw.Tie.Misc.const_lenp_kinds
+#print axioms Ufw.Tie.EndpFns.errnoOf_neg
+#print axioms Ufw.Tie.EndpFns.errnoOf_eintr
+#print axioms Ufw.Tie.EndpFns.errnoOf_eagain
+#print axioms Ufw.Tie.EndpFns.errnoOf_enodata
+#print axioms Ufw.Tie.EndpFns.snk_octet_call
+#print axioms Ufw.Tie.EndpFns.snk_call_not_diverge
+#print axioms Ufw.Tie.EndpFns.snk_call_octet_le
+#print axioms Ufw.Tie.EndpFns.sx0_64
+#print axioms Ufw.Tie.EndpFns.zero_toInt32
+#print axioms Ufw.Tie.EndpFns.retry_iff
+#print axioms Ufw.Tie.EndpFns.sink_adapt_loop
+#print axioms Ufw.Tie.EndpFns.gen_sink_adapt
+#print axioms Ufw.Tie.EndpFns.src_octet_call
+#print axioms Ufw.Tie.EndpFns.src_call_not_diverge
+#print axioms Ufw.Tie.EndpFns.src_call_octet_ok
+#print axioms Ufw.Tie.EndpFns.src_call_err_nil
+#print axioms Ufw.Tie.EndpFns.source_adapt_acc_len
+#print axioms Ufw.Tie.EndpFns.drop_through
+#print axioms Ufw.Tie.EndpFns.sx0_64'
+#print axioms Ufw.Tie.EndpFns.retry_iff'
+#print axioms Ufw.Tie.EndpFns.source_adapt_loop
+#print axioms Ufw.Tie.EndpFns.gen_source_adapt
